@@ -194,7 +194,7 @@ func scenario(cfg wl.Config, sp spec) *mc.Scenario {
 			env.Cli.Release()
 			sched.Quiesce()
 		}
-		env.TeardownExplored()
+		env.Teardown() // closing is C12's subject; here the teardown runs on the default schedule
 		sched.Observef("cli=%d writes srv=%d writes", len(env.Cli.Log), len(env.Srv.Log))
 	}
 	check := func(e *sched.Exec) string {
@@ -247,6 +247,13 @@ func plans(tier string) []mc.Plan {
 					bounds = []int{0, 1, 2}
 				}
 				ps = append(ps, mc.Plan{Scen: scenario(cfg, spec{side: "client", actors: c, stallAt: -1}), Bounds: bounds, Split: len(bounds) > 2})
+			}
+		}
+		// the next RPC is created before the closing actor (so that it is preferred by the default
+		// schedule once the stream's bookkeeping says "finished")
+		if cfg.SplitSize == 2 && cfg.WriterBuf == 1 && (tier == "thorough" || !cfg.Soft) {
+			for _, c := range [][]string{{"S1", "NX", "CL"}, {"S1", "NX", "CS"}} {
+				ps = append(ps, mc.Plan{Scen: scenario(cfg, spec{side: "client", actors: c, stallAt: -1}), Bounds: []int{0, 1, 2}, Split: true})
 			}
 		}
 		// the remote half-close arrives first, so the local half-close/close is what terminates the
